@@ -302,6 +302,7 @@ func TestC20_CrashDuringSave(t *testing.T) {
 		if len(plan) == 0 {
 			t.Fatalf("the operation performs no file-system syscall")
 		}
+		checked := 0
 		check := func(dir, what string, touched bool) {
 			if sc.kind == "wallet" {
 				got, err := walletsOf(dir)
@@ -333,7 +334,8 @@ func TestC20_CrashDuringSave(t *testing.T) {
 			}
 			// the interrupted operation is done again on the recovered directory (what a user does after the restart):
 			// whatever the crash left beside the file must not stand in its way
-			if sc.op != "wallet-create" || sc.kind == "kv" {
+			checked++
+			if (sc.op != "wallet-create" || sc.kind == "kv") && (touched || checked%3 == 1) {
 				retry := hx.TempDir("c20retry")
 				copyDir(t, dir, retry)
 				out, rerr := exec.Command(helper, append([]string{sc.op, retry}, sc.args...)...).CombinedOutput()
